@@ -57,9 +57,9 @@ def _op_modules() -> list:
 
 def op_for(op, pal, nid: int, loop: bool = False):
     """The constructor module of application `nid`: the plain v17 namespace unless the palette asks for
-    mixed modules (bits 3 and 4 of `pal` set), in which case every application draws its own module - the built
+    mixed modules (bits 3-5 of `pal` set), in which case every application draws its own module - the built
     model then needs version adaptation of single nodes, in main and inside bodies."""
-    if pal is None or (pal >> 3) & 3 != 3:
+    if pal is None or (pal >> 3) & 7 != 7:
         return op
     mods = _op_modules()
     if loop:
